@@ -36,6 +36,9 @@ fn describe(b: u64, out: &mut Out) -> Option<Entity> {
     if js.is_ok() != e.is_some() || bc.is_ok() != e.is_some() {
         out.flag(format!("serde decode of {b} disagrees with from_bits"));
     }
+    if e.is_some() != (b >> 32 != 0) {
+        out.flag(format!("from_bits({b:#x}) is_some = {} but upper half is {:#x}", e.is_some(), b >> 32));
+    }
     match e {
         None => {
             out.push(0);
@@ -47,6 +50,9 @@ fn describe(b: u64, out: &mut Out) -> Option<Entity> {
             out.push(e.id() as u64);
             out.push(tb >> 32);
             out.push(tb);
+            if e.id() as u64 != (b & 0xFFFF_FFFF) {
+                out.flag(format!("from_bits({b:#x}).id() = {}", e.id()));
+            }
             if tb != b {
                 out.flag(format!("to_bits(from_bits({b})) = {tb}"));
             }
